@@ -293,4 +293,116 @@ theorem runFile_due {k : Nat} {f : FileDesc} {P : Prop} (fuel : Nat) (s : State)
   · right
     exact runFile_pending fuel s prio (some c) now ticks hq
 
+/-! ### queues that do not hold the due transfer -/
+
+theorem readQueue_other {k : Nat} {f : FileDesc} {P : Prop} (ht : f.info.transferring = true) :
+    ∀ steps (s : State) (q : QSess) now ticks, Kept k f P s →
+    (∀ cur0 ∈ q.slots, ∀ c0, cur0 = some c0 → c0.key ≠ k) →
+    (∀ p t i b, (readQueue steps s q now ticks).2.2 = Out.pkt p t i b → p = q.prio) ∧
+    ((readQueue steps s q now ticks).2.2 = Out.none → Kept k f P (readQueue steps s q now ticks).1) := by
+  intro steps
+  induction steps with
+  | zero => intro s q now ticks h _; exact ⟨fun _ _ _ _ e => (by cases e), fun _ => h⟩
+  | succ n ih =>
+    intro s q now ticks h hq
+    unfold readQueue
+    split
+    · exact ⟨fun _ _ _ _ e => (by cases e), fun _ => h⟩
+    · rename_i cur hcur
+      have hmem : cur ∈ q.slots := List.mem_of_getElem? hcur
+      have hr := runFile_other ht runFuel s q.prio cur now ticks h (hq cur hmem)
+      generalize runFile runFuel s q.prio cur now ticks = r at hr
+      obtain ⟨s', cur', out⟩ := r
+      simp only [] at hr ⊢
+      cases out with
+      | none =>
+        obtain ⟨h1, h2⟩ := hr.2 rfl
+        simp only []
+        refine ih s' _ now ticks h1 ?_
+        intro cur0 hcur0 c0 e
+        rcases List.mem_or_eq_of_mem_set hcur0 with hm | hm
+        · exact hq cur0 hm c0 e
+        · subst hm; exact h2 c0 e
+      | hang => exact ⟨fun _ _ _ _ e => (by cases e), fun e => (by cases e)⟩
+      | pkt a b c d => exact ⟨fun p t i b' e => (by rw [← hr.1 a b c d rfl]; cases e; rfl), fun e => (by cases e)⟩
+      | fdt a b c => exact ⟨fun _ _ _ _ e => (by cases e), fun e => (by cases e)⟩
+
+/-- cyclic distance from the round-robin index to slot `j` -/
+def rrDist (idx j n : Nat) : Nat := if idx ≤ j then j - idx else j + n - idx
+
+theorem readQueue_due {k : Nat} {f : FileDesc} {P : Prop} (ht : f.info.transferring = true) (c : Cur) (j n : Nat)
+    (hk : c.key = k) (now : Nat) (hg : gateBlocked f now = false) (hs : c.enc.stopped = false)
+    (hlt : c.enc.sent < f.nPk) (hj : j < n) :
+    ∀ steps (s : State) (q : QSess) ticks, Kept k f P s → q.slots.length = n → q.index < n →
+    q.slots[j]? = some (some c) →
+    (∀ i c0, i ≠ j → q.slots[i]? = some (some c0) → c0.key ≠ k) →
+    rrDist q.index j n < steps →
+    (∀ p t i b, (readQueue steps s q now ticks).2.2 = Out.pkt p t i b → p = q.prio) ∧
+    ((readQueue steps s q now ticks).2.2 = Out.none → (readQueue steps s q now ticks).1.fdtQueue ≠ []) := by
+  intro steps
+  induction steps with
+  | zero => intro s q ticks _ _ _ _ _ hd; exact absurd hd (Nat.not_lt_zero _)
+  | succ m ih =>
+    intro s q ticks h hn hidx hjs hoth hd
+    unfold readQueue
+    split
+    · rename_i hnone
+      rw [List.getElem?_eq_none_iff] at hnone
+      omega
+    · rename_i cur hcur
+      by_cases hij : q.index = j
+      · -- the due slot
+        rw [hij, hjs] at hcur
+        simp only [Option.some.injEq] at hcur
+        subst hcur
+        have e : runFuel = 3 + 1 := rfl
+        have hr := runFile_due 3 s q.prio c now ticks h hk hg hs hlt
+        rw [e]
+        generalize runFile (3 + 1) s q.prio (some c) now ticks = r at hr
+        obtain ⟨s', cur', out⟩ := r
+        simp only [] at hr ⊢
+        rcases hr with ⟨i, b, hr⟩ | ⟨hr1, hr2⟩
+        · subst hr
+          exact ⟨fun p t i' b' e => (by cases e; rfl), fun e => (by cases e)⟩
+        · subst hr1
+          simp only []
+          constructor
+          · intro p t i b e
+            rw [(readQueue_pending m s' _ now ticks hr2).1] at e
+            cases e
+          · intro _
+            exact (readQueue_pending m s' _ now ticks hr2).2
+      · have hne : ∀ c0, cur = some c0 → c0.key ≠ k := by
+          intro c0 e; subst e
+          exact hoth q.index c0 hij hcur
+        have hr := runFile_other ht runFuel s q.prio cur now ticks h hne
+        generalize runFile runFuel s q.prio cur now ticks = r at hr
+        obtain ⟨s', cur', out⟩ := r
+        simp only [] at hr ⊢
+        cases out with
+        | none =>
+          obtain ⟨h1, h2⟩ := hr.2 rfl
+          simp only []
+          refine ih s' _ ticks h1 (by simp [hn]) ?_ ?_ ?_ ?_
+          · show (if q.index + 1 = q.slots.length then 0 else q.index + 1) < n
+            split <;> omega
+          · show (q.slots.set q.index cur')[j]? = _
+            rw [List.getElem?_set_ne hij]; exact hjs
+          · intro i c0 hi hget
+            have hget' : (q.slots.set q.index cur')[i]? = some (some c0) := hget
+            by_cases hiq : q.index = i
+            · subst hiq
+              rw [List.getElem?_set_self (by omega)] at hget'
+              simp only [Option.some.injEq] at hget'
+              exact h2 c0 hget'
+            · rw [List.getElem?_set_ne hiq] at hget'
+              exact hoth i c0 hi hget'
+          · show rrDist (if q.index + 1 = q.slots.length then 0 else q.index + 1) j n < m
+            unfold rrDist at hd ⊢
+            rw [hn]
+            split <;> split <;> split at hd <;> omega
+        | hang => exact ⟨fun _ _ _ _ e => (by cases e), fun e => (by cases e)⟩
+        | pkt a b c' d => exact ⟨fun p t i b' e => (by rw [← hr.1 a b c' d rfl]; cases e; rfl), fun e => (by cases e)⟩
+        | fdt a b c' => exact ⟨fun _ _ _ _ e => (by cases e), fun e => (by cases e)⟩
+
 end Flute.Sched
